@@ -462,3 +462,9 @@ def replay(case, acc):
 
 def unit_test(case):
     return "# library number (mc/checks/c07.py base_library) and middleware stack (labels from pool()):\n# " + repr(case) + "\n"
+
+
+def ENV_SHARDS(tier):
+    """The broad, cheap families: run again in a fresh interpreter per environment (engine.run_environments)."""
+    return [s for s in shards('quick') if s[0] in ("write", "factories") or (s[0] == "spelled" and s[1] != len(DOCS) + 5)]
+
